@@ -845,6 +845,32 @@ impl<'e, 'd> World<'e, 'd> {
                     Err(e) => OpOut::err(e),
                 }
             }
+            Op::Reconstruct => {
+                let provider = match self.env.provider() {
+                    Ok(p) => p,
+                    Err(e) => return OpOut::errs("provider", e),
+                };
+                let mut tags = provider.table_tags().unwrap_or_default();
+                tags.sort_unstable();
+                tags.dedup();
+                tags.truncate(96);
+                let mut tables = Vec::new();
+                let mut h = Fnv::new();
+                for t in tags {
+                    match provider.table_data(t) {
+                        Ok(Some(d)) => {
+                            h.write_u64(u64::from(t));
+                            h.write(&d);
+                            tables.push((t, d.into_owned()));
+                        }
+                        Ok(None) => {}
+                        Err(e) => return OpOut::err(e),
+                    }
+                }
+                let n = tables.len();
+                extra.recon = Some(tables);
+                OpOut::ok(format!("tables={} fnv={:016x}", n, h.finish()))
+            }
             Op::Metadata => {
                 let fd = match self.env.font_data() {
                     Ok(fd) => fd,
@@ -910,6 +936,8 @@ impl<'e, 'd> World<'e, 'd> {
 /// Facts the oracles need beyond the canonical string.
 #[derive(Default)]
 pub struct Extra {
+    /// Tables fetched by `Op::Reconstruct`.
+    pub recon: Option<Vec<(u32, Vec<u8>)>>,
     pub mapped: Option<usize>,
     pub shape: Option<ShapeFacts>,
     pub written: Option<Written>,
@@ -1359,6 +1387,68 @@ pub fn run_trace(
                         property: "C09".into(),
                         kind: "oracle".into(),
                         site: name,
+                        msg,
+                        op_index: i,
+                        op_kind: op.kind().into(),
+                        overflow_profile: false,
+                    });
+                    stop = true;
+                }
+            }
+        }
+
+        // ---- oracle C09 (tables reconstructed from WOFF2): mutually consistent and loadable.
+        // Only for pristine WOFF2 files: the relations are between tables the decoder rebuilds
+        // (glyf, loca, hmtx) and tables it passes through from a well-formed source.
+        if prop == "C09" && fault_free && trace.mode == Mode::Image && trace.font.ends_with(".woff2") {
+            if let (Ok(_), Some(tables)) = (&result, extra.recon.as_ref()) {
+                stats.bump("c09.validated.reconstructed");
+                // known-tag indices: 3 = hmtx, 10 = glyf
+                let layout = disk::woff2_layout(&prepared.image);
+                let all_transformed = |idx: u8, tag: u32| {
+                    layout.as_ref().map_or(false, |l| {
+                        let mut any = false;
+                        for e in l.entries.iter().filter(|e| e.0 == idx || (e.0 == 0x3f && e.1 == tag)) {
+                            any = true;
+                            if !e.4 {
+                                return false;
+                            }
+                        }
+                        any
+                    })
+                };
+                let rel = sfnt_check::Relations {
+                    hmtx: all_transformed(3, tag::HMTX),
+                    loca_glyf: all_transformed(10, tag::GLYF),
+                    passthrough: false,
+                };
+                if rel.hmtx {
+                    stats.bump("c09.reconstructed.hmtx_rebuilt");
+                }
+                if rel.loca_glyf {
+                    stats.bump("c09.reconstructed.glyf_rebuilt");
+                }
+                let checked = guard(|| {
+                    let mut problems = sfnt_check::validate_reconstructed(tables, rel);
+                    if problems.is_empty() {
+                        if let Ok(p) = env.provider() {
+                            sfnt_check::self_load_provider(p, &mut problems);
+                        }
+                    }
+                    problems
+                });
+                let problems = match checked {
+                    Ok(p) => p,
+                    Err(p) => vec![(
+                        "self-load-panic".to_string(),
+                        format!("{}:{} {}", p.rel_file(), p.line, p.msg_class()),
+                    )],
+                };
+                for (name, msg) in problems {
+                    report.violations.push(Violation {
+                        property: "C09".into(),
+                        kind: "oracle".into(),
+                        site: format!("woff2:{}", name),
                         msg,
                         op_index: i,
                         op_kind: op.kind().into(),
